@@ -227,6 +227,173 @@ def near_values(rng, marks, n, special=True):
     return out
 
 
+# ------------------------------------------------------------------ impose_as masks
+AS_SHAPES = ["forest", "forest", "chain", "any", "shared", "shared", "star", "layered", "layered", "dag", "dag", "doc"]
+AS_OFFSETS = [None, 0.0, 1.0, -0.5, 10.0, 0.1, -2.5, 0.25, -3.0, 2.0]
+DOC_MASK = [(0, 1), (3, 1), (4, 5), (5, 6), (5, 7)]          # the mask of impose_as's docstring (constraints.py l.1632 / l.1642)
+
+
+def dacyclic(pairs):
+    """drop self pairs and pairs that would close a DIRECTED cycle by index value (such a mask never terminates in the
+    code: witness only); repeated pairs, shared trackers, shared partners and undirected cycles (diamonds) all stay"""
+    out = []; succ = {}
+
+    def reaches(a, b):
+        seen = set(); todo = [a]
+        while todo:
+            u = todo.pop()
+            if u == b:
+                return True
+            if u in seen:
+                continue
+            seen.add(u); todo.extend(succ.get(u, ()))
+        return False
+    for i, j in pairs:
+        if i == j or reaches(j, i):
+            continue
+        succ.setdefault(i, []).append(j)
+        out.append((i, j))
+    return out
+
+
+def gen_as_shape(rng, shape, nn):
+    """pairs (partner, tracker) over the labels 0..nn-1, listed partners-first (a listing in which tools.connected finds
+    one group per component, keyed by a label that tracks nothing) unless the caller shuffles"""
+    pairs = []
+    lab = list(range(nn))
+    if rng.random() < 0.6:
+        rng.shuffle(lab)                                     # which label plays which role: i < j is NOT a rule of the mask
+    if shape in ("forest", "chain", "any"):
+        for _ in range(rng.randint(0, 5)):
+            if shape == "chain" and pairs:
+                i = pairs[-1][1]; j = i + 1
+            else:
+                i = rng.randrange(nn); j = rng.randrange(nn)
+            if i == j:
+                continue
+            if shape != "any" and i > j:
+                i, j = j, i
+            if shape == "forest" and any(p[1] == j for p in pairs):
+                continue
+            pairs.append((i, j))
+        return acyclic(pairs) if shape == "any" else pairs
+    if shape == "shared":
+        # several partners of ONE tracker; sometimes the tracker is tracked further (a chain below it), sometimes one of the
+        # partners tracks a further entry itself (then the partners sit at unequal depths)
+        k = min(nn - 1, rng.choice([2, 2, 3, 4]))
+        t, ps, rest = lab[0], lab[1:1 + k], lab[1 + k:]
+        pairs = [(p, t) for p in ps]
+        for _ in range(rng.choice([0, 0, 1, 2])):
+            if rest:
+                pairs.append((t, rest.pop())); t = pairs[-1][1]
+        if rest and rng.random() < 0.25:
+            pairs.insert(0, (rest.pop(), rng.choice(ps)))
+        if rest and len(rest) > 1 and rng.random() < 0.3:     # an independent pair beside it
+            pairs.append((rest.pop(), rest.pop()))
+        return pairs
+    if shape == "star":
+        k = min(nn - 1, rng.choice([2, 2, 3, 4]))
+        p, ts, rest = lab[0], lab[1:1 + k], lab[1 + k:]
+        pairs = [(p, t) for t in ts]
+        if rest and rng.random() < 0.5:
+            pairs.append((rng.choice(ts), rest.pop()))
+        if rest and rng.random() < 0.3:
+            pairs.insert(0, (rest.pop(), p))
+        return pairs
+    if shape == "layered":
+        # levels 0..d, every pair leads from a level to the next: shared trackers with partners at EQUAL depth, fan-out,
+        # diamonds.  A satisfiable system for every offset.
+        k = min(nn, rng.randint(3, 7))
+        nodes = lab[:k]
+        d = rng.randint(1, min(3, k - 1))
+        lev = [[] for _ in range(d + 1)]
+        for r, a in enumerate(nodes):
+            lev[r if r <= d else rng.randint(0, d)].append(a)
+        for l in range(1, d + 1):
+            for a in lev[l]:
+                for p in rng.sample(lev[l - 1], min(len(lev[l - 1]), rng.choice([1, 1, 2, 3]))):
+                    pairs.append((p, a))
+        return pairs
+    if shape == "dag":
+        k = min(nn, rng.randint(3, 6))
+        nodes = lab[:k]
+        for _ in range(rng.randint(2, 6)):
+            a, b = sorted(rng.sample(range(k), 2))
+            pairs.append((nodes[a], nodes[b]))                # repeated pairs and triangles may occur
+        return pairs
+    raise AssertionError(shape)
+
+
+def gen_as(rng, c, n):
+    shape = rng.choice(AS_SHAPES)
+    if shape not in ("forest", "chain", "any") and n < 4 and rng.random() < 0.75:
+        n = rng.choice([4, 5, 6, 7, 9])
+    nn = max(n, 2)
+    if shape == "doc":
+        pairs = list(DOC_MASK)
+        n = rng.choice([4, 6, 7, 9, 9, 10, n])
+        nn = max(n, 2)
+    else:
+        pairs = gen_as_shape(rng, shape, nn)
+    feats = []
+    if pairs and rng.random() < 0.15:                         # the same pair listed again
+        for _ in range(rng.choice([1, 1, 2])):
+            pairs.insert(rng.randrange(len(pairs) + 1), rng.choice(pairs))
+        feats.append("repeated-pair")
+    if pairs and rng.random() < 0.12:                         # one out-of-range / negative tracker
+        k = rng.randrange(len(pairs)); i, j = pairs[k]
+        pairs[k] = (i, rng.choice([j - nn, nn + 1, -nn - 2]))
+    elif pairs and rng.random() < 0.06:                       # one out-of-range partner
+        k = rng.randrange(len(pairs)); i, j = pairs[k]
+        pairs[k] = (rng.choice([nn + 2, -nn - 1, nn]), j)
+    elif pairs and n and rng.random() < 0.1:                  # one entry addressed from the end, in every pair that lists it
+        v = rng.choice([a for p in pairs for a in p])
+        if 0 <= v < n:
+            pairs = [tuple(a - n if a == v else a for a in p) for p in pairs]
+    if rng.random() < 0.3:
+        rng.shuffle(pairs)
+    # a mask with a cycle (by index VALUE) never terminates in the code: witness only
+    pairs = acyclic(pairs) if shape in ("forest", "chain", "any") else dacyclic(pairs)
+    c["mask"] = pairs
+    c["offset"] = rng.choice(AS_OFFSETS)
+    x = gvec(rng, n)
+    if pairs and rng.random() < 0.3:
+        x = as_conforming(rng, pairs, c["offset"] or 0.0, x)
+    c["x"] = x
+    c["shape"] = shape
+    c["itag"] = shape
+    c["kinds"] = ("list", "list", "array")
+
+
+def as_conforming(rng, pairs, off, x):
+    """overwrite the addressed entries of x so that x[j] = x[i] + off holds exactly (dyadic values) for every in-range pair,
+    where such an assignment exists; otherwise x is returned as it is"""
+    n = len(x)
+    x = list(x)
+    adj = {}
+    for i, j in pairs:
+        wi, wj = wrap(n, i), wrap(n, j)
+        if wi is None or wj is None:
+            continue
+        adj.setdefault(wi, []).append((wj, 1)); adj.setdefault(wj, []).append((wi, -1))
+    pot = {}
+    for s in sorted(adj):
+        if s in pot:
+            continue
+        pot[s] = (s, 0); todo = [s]
+        while todo:
+            u = todo.pop()
+            for v, d in adj[u]:
+                if v not in pot:
+                    pot[v] = (s, pot[u][1] + d); todo.append(v)
+    base = {}
+    for s, (r, d) in pot.items():
+        if r not in base:
+            base[r] = float(rng.randint(-6, 6)) if rng.random() < 0.5 else dyadic(rng, -8, 8, 4)
+        x[s] = base[r] + d * off
+    return x
+
+
 def gen_case(rng):
     op = rng.choices(OPS, WEIGHTS)[0]
     n = glen(rng)
@@ -329,36 +496,7 @@ def gen_case(rng):
         c["x"] = gvec(rng, n)
         c["kinds"] = ("list", "list", "array", "tuple")
     elif op == "as":
-        # forest-shaped masks (i < j chains), sometimes negative / out-of-range members, sometimes bridged components
-        m = rng.randint(0, 5)
-        pairs = []
-        nn = max(n, 2)
-        shape = rng.choice(["forest", "forest", "chain", "any"])
-        for _ in range(m):
-            if shape == "chain" and pairs:
-                i = pairs[-1][1]; j = i + 1
-            else:
-                i = rng.randrange(nn); j = rng.randrange(nn)
-            if i == j:
-                continue
-            if shape != "any" and i > j:
-                i, j = j, i
-            if shape == "forest" and any(p[1] == j for p in pairs):
-                continue
-            pairs.append((i, j))
-        if shape == "any":
-            pairs = acyclic(pairs)
-        if pairs and rng.random() < 0.12:
-            k = rng.randrange(len(pairs)); i, j = pairs[k]
-            pairs[k] = (i, rng.choice([j - nn, nn + 1, -nn - 2]))
-        if rng.random() < 0.3:
-            rng.shuffle(pairs)
-        pairs = acyclic(pairs)      # a mask with a cycle (by index VALUE) never terminates in the code: witness only
-        c["mask"] = pairs
-        c["offset"] = rng.choice([None, 0.0, 1.0, -0.5, 10.0, 0.1])
-        c["x"] = gvec(rng, n)
-        c["shape"] = shape
-        c["kinds"] = ("list", "list", "array")
+        gen_as(rng, c, n)
     elif op == "partial":
         m = rng.randint(0, 4)
         c["mask"] = {(rng.randint(-n - 1, n + 1) if rng.random() < 0.35 else (rng.randrange(n) if n else 0)): gval(rng) for _ in range(m)}
@@ -564,8 +702,14 @@ def run_impl(c, rng):
 
         def onalarm(sig, frm):
             raise Hang()
+        # a call that never returns burns CPU: the watchdog counts the CPU time of THIS process (ITIMER_PROF), so a run on
+        # a heavily loaded machine (a shard descheduled for seconds) is not mistaken for a hang; a generous wall-clock
+        # alarm stays behind it for a call that would block without computing
+        limit = c.get("alarm", 10.0)
         old = signal.signal(signal.SIGALRM, onalarm)
-        signal.setitimer(signal.ITIMER_REAL, c.get("alarm", 10.0))
+        oldp = signal.signal(signal.SIGPROF, onalarm)
+        signal.setitimer(signal.ITIMER_REAL, max(120.0, 60.0 * limit))
+        signal.setitimer(signal.ITIMER_PROF, limit)
         try:
             return tolist(f(copy.copy(xin)))
         except Hang:
@@ -576,7 +720,9 @@ def run_impl(c, rng):
                     return ("err", name)
             raise
         finally:
+            signal.setitimer(signal.ITIMER_PROF, 0)
             signal.setitimer(signal.ITIMER_REAL, 0)
+            signal.signal(signal.SIGPROF, oldp)
             signal.signal(signal.SIGALRM, old)
     if op == "bounded":
         picks = []; draws = []
@@ -779,6 +925,61 @@ def true_components(pairs):
     return list(groups.values())
 
 
+def as_analysis(pairs, n):
+    """facts about an impose_as mask that depend on the mask and the length only (index VALUES are the nodes):
+    aliased          two different index values address one entry (malformed: compared, not judged)
+    dcyclic          a directed cycle (the code never returns)
+    depth[a]         number of rounds of the `while pairs:` offset loop in which `a` is a tracker = length of the longest
+                     chain of pairs ending at `a` (constraints.py l.1667-1675 of the pinned tree)
+    levelled         every pair leads from depth d to depth d+1: exactly then "x[j] = x[i] + offset for every pair" is what the
+                     rounds produce for a non-zero offset; (when the pairs admit ANY level function and depth is not one, a
+                     tracker is shared by partners at unequal depths)
+    satisfiable      the pairs admit a level function at all (no two routes of different length between two entries)
+    groups           tools.connected of the pinned tree (ref_connected)
+    key_is_tracker   some group key is in range and is itself a tracker (depth > 0)
+    key_out_of_range some group has an out-of-range key and an in-range member of depth > 0"""
+    nodes = []
+    for p in pairs:
+        for a in p:
+            if a not in nodes:
+                nodes.append(a)
+    slots = [wrap(n, a) for a in nodes if wrap(n, a) is not None]
+    aliased = len(set(slots)) != len(slots)
+    uniq = list(dict.fromkeys(pairs))
+    dcyclic = len(dacyclic(uniq)) != len(uniq)
+    depth = {a: 0 for a in nodes}
+    if not dcyclic:
+        for _ in range(len(nodes) + 1):
+            changed = False
+            for i, j in uniq:
+                if depth[j] < depth[i] + 1:
+                    depth[j] = depth[i] + 1; changed = True
+            if not changed:
+                break
+    levelled = all(depth[j] == depth[i] + 1 for i, j in uniq)
+    # any level function ?
+    adj = {}
+    for i, j in uniq:
+        adj.setdefault(i, []).append((j, 1)); adj.setdefault(j, []).append((i, -1))
+    pot = {}; satisfiable = True
+    for s in nodes:
+        if s in pot:
+            continue
+        pot[s] = 0; todo = [s]
+        while todo:
+            u = todo.pop()
+            for v, d in adj.get(u, ()):
+                if v not in pot:
+                    pot[v] = pot[u] + d; todo.append(v)
+                elif pot[v] != pot[u] + d:
+                    satisfiable = False
+    groups = ref_connected(list(pairs))
+    key_is_tracker = any(wrap(n, r) is not None and depth[r] > 0 for r in groups)
+    key_out_of_range = any(wrap(n, r) is None and any(wrap(n, k) is not None and depth[k] > 0 for k in v) for r, v in groups.items())
+    return {"aliased": aliased, "dcyclic": dcyclic, "depth": depth, "levelled": levelled, "satisfiable": satisfiable,
+            "groups": groups, "key_is_tracker": key_is_tracker, "key_out_of_range": key_out_of_range, "nodes": nodes}
+
+
 def close(a, b, rel=1e-6, ab=1e-9):
     return abs(a - b) <= ab + rel * max(abs(a), abs(b))
 
@@ -789,8 +990,8 @@ def monitor(c, res, extra):
     op = c["op"]; x = c["x"]; n = len(x)
     if isinstance(res, tuple):
         if res[1] == "hang":
-            key = "impose_as/never-terminates/cyclic-mask" if (op == "as" and len(acyclic(c["mask"])) < len(c["mask"])) else op + "/never-terminates"
-            out.append((key, "%s did not return within %.0f s on x=%r (configuration %r)" % (op, c.get("alarm", 10.0), x, c.get("mask"))))
+            key = "impose_as/never-terminates/cyclic-mask" if (op == "as" and as_analysis(c["mask"], n)["dcyclic"]) else op + "/never-terminates"
+            out.append((key, "%s did not return within %.1f s of CPU time on x=%r (configuration %r)" % (op, c.get("alarm", 10.0), x, c.get("mask"))))
             return out
         # an exception: only judged where the documentation promises a value
         if op == "masked" and res[1] == "key":
@@ -994,34 +1195,70 @@ def monitor(c, res, extra):
         idem(extra["f"], "impose_at/idempotent")
     elif op == "as":
         pairs = c["mask"]; off = c["offset"] or 0.0
+        A = as_analysis(pairs, n)
         inr = [(wrap(n, i), wrap(n, j)) for i, j in pairs]
         touched = set()
         for g in true_components(pairs):
             touched |= set(wrap(n, a) for a in g)
         frame(touched - {None}, "impose_as/frame")
-        nodes = set(a for p in pairs for a in p)
-        slots = [wrap(n, a) for a in nodes if wrap(n, a) is not None]
-        # judged only when distinct index values address distinct entries and either every member has ONE parent or
-        # there is no offset (then "tied" simply means equal, whatever the shape: chains {(i,k),(j,k)}, stars, paths -
-        # the docstring's own example ties (0,1),(3,1))
-        tree = len(set(j for _, j in pairs)) == len(pairs) and len(set(slots)) == len(slots)
-        if tree or (off == 0.0 and len(set(slots)) == len(slots)):
+        # Judged whenever distinct index values address distinct entries and the mask has no directed cycle (then the code
+        # returns).  The pair clause "x[j] is x[i] + offset" is judged on every mask for which the clauses of all pairs can
+        # hold together: always when there is no offset (tied = equal, whatever the shape: shared trackers {(i,k),(j,k)},
+        # shared partners, chains, diamonds, repeated pairs - the docstring's own example ties (0,1),(3,1)), and with an
+        # offset when the index graph can be levelled (every pair leads from one level to the next).
+        wellformed = not A["aliased"] and not A["dcyclic"]
+        L = A["depth"]
+
+        def mech_pair(i, j):
+            """the recorded mechanism that explains a failing pair, decided on the MASK and on transcriptions of the unchanged
+            tree (ref_connected, the offset rounds), never on the tree under test"""
+            grp = A["groups"]
+            where = lambda a: [k for k, v in grp.items() if a == k or a in v]
+            if not (set(where(i)) & set(where(j))) or len(where(i)) > 1 or len(where(j)) > 1:
+                return "impose_as/pair-not-tied/components-not-merged"
+            if any(wrap(n, k) is None for k in set(where(i)) | set(where(j))):
+                return "impose_as/pair-not-tied/out-of-range-member"       # the group's key is out of range: nothing is tied
+            if off != 0.0 and L[j] != L[i] + 1:
+                return "impose_as/pair-not-offset/shared-tracker-partners-at-unequal-depth"
+            return None
+        if wellformed and (off == 0.0 or A["satisfiable"]):
             for (i, j), (wi, wj) in zip(pairs, inr):
                 if wi is None or wj is None or y[wi] != y[wi]:
                     continue
                 if not (isfin(y[wi]) and isfin(y[wj])):
                     continue
                 if not (same_float(y[wj], y[wi] + off) or y[wj] == y[wi] + off):
-                    # were the two ends left in different groups by tools.connected ?  Decided on a transcription of
-                    # tools.connected of the UNCHANGED tree (ref_connected), never on the tree under test: a pair that
-                    # the recorded grouping ties falls into no recorded class
-                    grp = ref_connected(list(pairs))
-                    def where(a):
-                        return [k for k, v in grp.items() if a == k or a in v]
-                    split = not (set(where(i)) & set(where(j))) or len(where(i)) > 1 or len(where(j)) > 1
-                    anc_in_range = all(w is not None for w in (wrap(n, a) for a in [p for p in sum(pairs, ())]))
-                    key = "impose_as/pair-not-tied/components-not-merged" if split else ("impose_as/pair-not-tied/out-of-range-member" if not anc_in_range else "impose_as/pair-not-tied/other")
-                    bad(key, "pair (%d,%d): x[%d]=%r is not x[%d]=%r + %r" % (i, j, j, y[wj], i, y[wi], off)); break
+                    key = mech_pair(i, j)
+                    if key and key.endswith("unequal-depth"):
+                        # inside the recorded class the tracker still sits a whole number of offsets above its partner: one per
+                        # round of the offset loop in which it is a tracker and the partner is not
+                        v = y[wi]
+                        for _ in range(max(0, L[j] - L[i])):
+                            v = v + off
+                        if L[j] < L[i] or not (same_float(y[wj], v) or y[wj] == v):
+                            key = None
+                    bad(key or ("impose_as/pair-not-tied/other" if off == 0.0 else "impose_as/pair-not-offset/other"), "pair (%d,%d): x[%d]=%r is not x[%d]=%r + %r (mask %r)" % (i, j, j, y[wj], i, y[wi], off, pairs)); break
+        if wellformed:
+            mech = None
+            if off != 0.0 and A["key_is_tracker"]:
+                mech = "impose_as/not-idempotent/offset/group-key-is-a-tracker"
+            elif off != 0.0 and A["key_out_of_range"]:
+                mech = "impose_as/not-idempotent/offset/group-key-out-of-range"
+            idem(extra["f"], mech or "impose_as/idempotent")
+        # an input in which every pair already holds EXACTLY (checked in rational arithmetic: no rounding anywhere on the
+        # way) and every index is in range is returned as it is
+        if wellformed and pairs and all(w is not None for p in inr for w in p) and all(isfin(x[w]) for p in inr for w in p):
+            from fractions import Fraction as Fr
+            if all(Fr(x[wj]) == Fr(x[wi]) + Fr(off) for wi, wj in inr):
+                if not same_vec(canon0(y), canon0(x)):
+                    key = None
+                    for i, j in pairs:
+                        k = mech_pair(i, j)
+                        if k and not k.endswith("out-of-range-member"):
+                            key = k; break
+                    if key is None and off != 0.0 and A["key_is_tracker"]:
+                        key = "impose_as/not-idempotent/offset/group-key-is-a-tracker"
+                    bad(key or "impose_as/fix-conform", "every pair of the mask %r already holds (offset %r) but the input was changed" % (pairs, off))
     elif op == "partial":
         m = c["mask"]
         ws = {}
@@ -1263,6 +1500,36 @@ def clause_tags(c, res):
             ws = [wrap(n, i) for i in kept]
             tags.append("at-list:" + ("raises" if not ok else ("repeated-slot" if len(set(ws)) != len(ws) else
                                                                ("broadcast" if len(c["targets"]) == 1 and len(kept) != 1 else "one-per-index"))))
+    elif op == "as":
+        pairs = c["mask"]; off = c["offset"] or 0.0
+        A = as_analysis(pairs, n)
+        tr = [j for _, j in dict.fromkeys(pairs)]; pa = [i for i, _ in dict.fromkeys(pairs)]
+        ft = []
+        if len(set(tr)) < len(tr):
+            ft.append("shared-tracker")
+        if len(set(pa)) < len(pa):
+            ft.append("shared-partner")
+        if set(tr) & set(pa):
+            ft.append("chain")
+        if len(set(pairs)) < len(pairs):
+            ft.append("repeated-pair")
+        if len(dict.fromkeys(pairs)) > len(acyclic(list(dict.fromkeys(pairs)))) and not A["dcyclic"]:
+            ft.append("undirected-cycle")
+        if any(wrap(n, a) is None for a in A["nodes"]):
+            ft.append("out-of-range")
+        if any(a < 0 and wrap(n, a) is not None for a in A["nodes"]):
+            ft.append("negative")
+        if A["aliased"]:
+            ft.append("aliased(not judged)")
+        sign = "offset0" if off == 0.0 else ("offset+" if off > 0 else "offset-")
+        for t in ft or ["plain"]:
+            tags.append("as:%s:%s" % (t, sign))
+        if off != 0.0 and not A["aliased"] and not A["dcyclic"] and pairs:
+            tags.append("as:pair-clause:" + ("levelled" if A["levelled"] else ("unequal-depth" if A["satisfiable"] else "no-assignment(not judged)")))
+        if ok and pairs and not A["aliased"] and all(wrap(n, a) is not None and isfin(x[wrap(n, a)]) for a in A["nodes"]):
+            from fractions import Fraction as Fr
+            if all(Fr(x[wrap(n, j)]) == Fr(x[wrap(n, i)]) + Fr(off) for i, j in pairs):
+                tags.append("as:conforming-input:" + sign + (":second-application" if c.get("second") else ""))
     elif op == "masked":
         m = c["mask"]
         ks = list(m)
@@ -1301,6 +1568,13 @@ def run_cases(cases_rng):
         res, extra = run_impl(c, rng)
         line = request_line(c, extra)
         recs.append((c, res, extra)); lines.append(line)
+        if c["op"] == "as" and not c.get("second") and not isinstance(res, tuple) and res:
+            # the SECOND application is a case of its own (input = the first result, same container kind): the model is
+            # compared on it and every clause is judged on it as well
+            c2 = {k: v for k, v in c.items() if not k.startswith("_")}
+            c2.update(x=list(res), second=True, kinds=(c["kind"],), xin=None, kind=None)
+            res2, extra2 = run_impl(c2, _random.Random(1))
+            recs.append((c2, res2, extra2)); lines.append(request_line(c2, extra2))
     replies = leandrv.run_driver(lines)
     return recs, lines, replies
 
@@ -1370,6 +1644,12 @@ WITNESSES = [
     {"op": "sync", "mask": {0: (1, 2.0)}, "x": [1.0, 2.0, 3.0], "kinds": ("array",)},
     {"op": "as", "mask": [(3, 4), (2, 3), (0, 2)], "offset": None, "shape": "witness", "x": [0.0, 1.0, 2.0], "kinds": ("list",)},
     {"op": "as", "mask": [(0, 1), (1, 0)], "offset": None, "shape": "witness", "x": [1.0, 2.0], "kinds": ("list",), "alarm": 0.5},
+    # C16-K1: the chain 0 -> 1 -> 2 listed tracker-first; the conforming input [0,10,20] moves by one offset per application
+    {"op": "as", "mask": [(1, 2), (0, 1)], "offset": 10.0, "shape": "witness", "x": [0.0, 10.0, 20.0], "kinds": ("list",)},
+    # C16-K2: tracker 2 shared by partner 1 (itself a tracker) and partner 3 (tracks nothing)
+    {"op": "as", "mask": [(0, 1), (1, 2), (3, 2)], "offset": 10.0, "shape": "witness", "x": [1.0, 2.0, 3.0, 4.0], "kinds": ("list",)},
+    # C16-K3: the partner of the only pair is out of range; the tracker still receives the offset, once per application
+    {"op": "as", "mask": [(5, 1)], "offset": 10.0, "shape": "witness", "x": [1.0, 2.0, 3.0], "kinds": ("list",)},
 ]
 
 
@@ -1399,7 +1679,10 @@ def main(tier, seed):
             "(inner, outer) / impose_at / impose_as / partial / synchronized / clipped / suppressed / masked / with_mean / "
             "with_spread / normalized / with_variance / with_std; x a list, ndarray or tuple of length 0-12 built from integers, "
             "half-integers (ties), dyadics, values on / one ulp beside / midway between the bounds and samples, +-0, +-inf, NaN; "
-            "index = None / single / tuple / negative / out-of-range / duplicate / empty.  non-trivial = the transform changed "
+            "index = None / single / tuple / negative / out-of-range / duplicate / empty; impose_as masks: forests, chains, several partners of one "
+            "tracker (equal and unequal depth), one partner of several trackers, levelled DAGs with diamonds, random DAGs, the docstring's mask, "
+            "repeated pairs, any listing order, offset None / 0 / positive / negative, inputs in which every pair already holds, and the second "
+            "application of every impose_as case as a case of its own.  non-trivial = the transform changed "
             "the input or raised; the histogram lists op:container:index-kind:outcome, clause:<tag> = cases that exercise a tie / "
             "degenerate / list-target / unsorted-mask / selected-subsequence / re-draw path, alias:<op>:<outcome> = aliasing monitor "
             "(checked | exempt: rewrites its buffer by design | returned-argument: the decorated identity's own return)")
@@ -1414,7 +1697,11 @@ def main(tier, seed):
           "(same buffer called twice and refilled in between, reference = a decorator built anew from the configuration)"]
     assumptions = ["the decorated function is the identity (the anchors' observation point); inner/outer placement is exercised through sorting/monotonic/clipped/suppressed only",
                    "theorems are over a linearly ordered field / linear order: no NaN, no rounding; `floor` and the summation are parameters with their defining laws as hypotheses",
-                   "impose_as masks are acyclic (a cyclic mask never terminates in the code); duplicate indices are malformed and only compared, not judged",
+                   "impose_as masks have no DIRECTED cycle (such a mask never terminates in the code: recorded finding, witness only); shared trackers, shared "
+                   "partners, chains, diamonds, repeated pairs, negative and out-of-range members, offsets of both signs are generated and judged "
+                   "(pair clause x[j] = x[i] + offset on every pair whenever the clauses of all pairs can hold together, frame, idempotence through a "
+                   "second application that is itself compared with the model, conforming input returned as it is); two index values that address "
+                   "one entry are malformed and only compared, not judged",
                    "IEEE binary64 + - * / floor sqrt and comparisons agree between Lean Float and CPython/numpy"]
     return framework.finish(PID, tier, seed, t0, proof, run, rule, tb, assumptions, search_more=search_more)
 
